@@ -165,7 +165,8 @@ func (v Fix128Value) MeteredString(
 func (v Fix128Value) ToInt() int {
 	// TODO: Maybe compute this without the use of `big.Int`
 	fix128BigInt := v.ToBigInt()
-	integerPart := fix128BigInt.Div(fix128BigInt, sema.Fix128FactorIntBig)
+	// Quo truncates toward zero (Div would round negative values down)
+	integerPart := fix128BigInt.Quo(fix128BigInt, sema.Fix128FactorIntBig)
 
 	if !integerPart.IsInt64() {
 		panic(&OverflowError{})
